@@ -69,7 +69,7 @@ def run_text(name, progs, seed, spur):
 
 
 def parse(section):
-    d = dict(steps=[], notes=[], rets={}, queue=[], counters=None, consumed=[], parked=[], terminal=None, mismatch=[], cleared=None)
+    d = dict(steps=[], notes=[], rets={}, queue=[], counters=None, consumed=[], parked=[], terminal=None, mismatch=[], cleared=None, c11bad=[])
     for l in section:
         t = l.split()
         if not t:
@@ -94,6 +94,8 @@ def parse(section):
             d["terminal"] = int(t[1])
         elif t[0] == "mismatch":
             d["mismatch"].append(l)
+        elif t[0] == "c11bad":
+            d["c11bad"].append(l)
     return d
 
 
